@@ -6,10 +6,15 @@ import (
 	"fmt"
 	"math/big"
 	"math/rand"
+	"net"
 	"path/filepath"
 	"sort"
+	"time"
 
+	"github.com/pegnet/pegnetd/config"
 	"github.com/pegnet/pegnetd/node"
+	"github.com/pegnet/pegnetd/srv"
+	"github.com/spf13/viper"
 	"verif/lab/forge"
 	"verif/lab/gen"
 	"verif/lab/harness"
@@ -35,6 +40,7 @@ func init() {
 	registry["C09"] = checkC09
 	orch.Register("c09.case", c09Case)
 	orch.Register("c09.boundary", c09Boundary)
+	orch.Register("c09.api", c09API)
 }
 
 // c09Boundary: a chain that crosses every activation (compressed eras), synced once continuously and once per
@@ -316,6 +322,109 @@ func c09Case(j *orch.Job, r *orch.Result) error {
 	return nil
 }
 
+// c09API: the daemon also answers read requests between blocks (rich lists go through the rolling-average cache
+// the sync loop prices conversions with). The chain has an asset whose average is unavailable while its spot
+// rate is not, and conversions of it waiting. Replay A lives through the whole chain; replay B is a new process
+// before every block from shortly before the PIP-10 activation on. Both serve the same requests after the same
+// blocks; what a process has been asked since it started must not show in the ledger.
+func c09API(j *orch.Job, r *orch.Result) error {
+	var p c09Params
+	json.Unmarshal(j.Params, &p)
+	mp := &modelParams{Seed: p.Seed, Profile: "mixed", Late: true, Window: 12, Features: []string{"c07", "avg-unavailable", "gaps"}}
+	e, m, tip := buildWorkload(mp)
+	setAvg(12)
+	n, err := harness.StartNode(harness.NodeConfig{DBPath: filepath.Join(j.Dir, "refdb")}, m.W.Chain)
+	if err != nil {
+		return err
+	}
+	n.Run()
+	if err := gen.Drive(n, m, m.W, tip, harness.WaitOpts{}, nil); err != nil {
+		n.Stop()
+		r.Inconclusive = append(r.Inconclusive, "forging stopped: "+err.Error())
+		return nil
+	}
+	ref, err := harness.TakeDump(n.RO, harness.DumpOptions{DropBackfill: true, KeepRows: true})
+	var unavailable int
+	n.RO.QueryRow("SELECT COUNT(*) FROM pn_history_txbatch b JOIN pn_history_transaction t ON t.entry_hash = b.entry_hash WHERE b.executed = 0 AND t.action_type = 2 AND b.height >= ?", e.PIP10).Scan(&unavailable)
+	n.Stop()
+	if err != nil {
+		return err
+	}
+	r.Count("conversions_left_waiting_for_an_average_in_the_reference", int64(unavailable))
+	qs := []apiQuery{
+		{"rich-list", "get-rich-list", map[string]interface{}{"asset": "pXBT", "count": 5}},
+		{"rich-list", "get-rich-list", map[string]interface{}{"asset": "PEG", "count": 5}},
+		{"global-rich-list", "get-global-rich-list", map[string]interface{}{"count": 5}},
+		{"rates", "get-pegnet-rates", map[string]interface{}{}},
+	}
+	run := func(name string, restarts []uint32) (*ReplayResult, error) {
+		port := 0
+		return Replay(m.W.Chain, ReplayOpts{DBPath: filepath.Join(j.Dir, name), ShortAvg: 12, Restarts: restarts, StepMode: true, KeepRows: true,
+			OnNode: func(n *harness.Node) {
+				port = freePort()
+				conf := viper.New()
+				conf.Set(config.APIListen, fmt.Sprintf("127.0.0.1:%d", port))
+				srv.NewAPIServer(conf, n.P).Start(make(chan struct{}))
+				for i := 0; i < 200; i++ {
+					if cn, err := net.Dial("tcp", fmt.Sprintf("127.0.0.1:%d", port)); err == nil {
+						cn.Close()
+						break
+					}
+					time.Sleep(5 * time.Millisecond)
+				}
+			},
+			AtHeight: func(n *harness.Node, h uint32) error {
+				if h < e.TxConv {
+					return nil
+				}
+				for _, q := range qs {
+					if _, err := callAPI(port, q); err == nil {
+						r.Count("api_requests_between_blocks", 1)
+					}
+				}
+				return nil
+			}})
+	}
+	a, err := run("rep-a", nil)
+	r.Count("replays", 1)
+	if err != nil {
+		r.Inconclusive = append(r.Inconclusive, "continuous replay with API requests failed: "+err.Error())
+		return nil
+	}
+	var rst []uint32
+	for h := e.PIP10 - 3; h < tip; h++ {
+		rst = append(rst, h)
+	}
+	b, err := run("rep-b", rst)
+	r.Count("replays", 1)
+	if err != nil {
+		r.Inconclusive = append(r.Inconclusive, "restarted replay with API requests failed: "+err.Error())
+		return nil
+	}
+	caseDesc := map[string]interface{}{"seed": p.Seed, "eras": e, "tip": tip, "kind": "api requests between blocks", "restarts_from": e.PIP10 - 3}
+	if unavailable > 0 {
+		r.Count("nontrivial", 1)
+		r.Seen("nontrivial_cases", fmt.Sprintf("api-%d", p.Seed))
+	}
+	diffTables := func(x, y *harness.Dump) string {
+		tables := ""
+		for t, hsx := range x.Hashes {
+			if y.Hashes[t] != hsx {
+				tables += t + ","
+			}
+		}
+		return sortCSV(tables)
+	}
+	if a.Dump.Total != b.Dump.Total {
+		r.Violate("C09", "restart-divergence at=every-block with=api-requests tables="+diffTables(a.Dump, b.Dump),
+			fmt.Sprintf("both replays answer the same read requests after the same blocks; the one restarted before every block from %d on ends in another ledger than the one that lives through (A = continuous, B = restarted)\n%s", e.PIP10-3, joinLines(harness.DiffDumps(a.Dump, b.Dump), 8)), caseDesc)
+	} else if b.Dump.Total != ref.Total {
+		r.Violate("C09", "restart-divergence at=every-block tables="+diffTables(ref, b.Dump),
+			fmt.Sprintf("ledger after restarts differs from the run that forged the chain\n%s", joinLines(harness.DiffDumps(ref, b.Dump), 8)), caseDesc)
+	}
+	return nil
+}
+
 func checkC09(c *Ctx) *orch.Outcome {
 	o := c.NewOutcome("exploration")
 	o.Rule = fmt.Sprintf("one evaluation = one (set of ungraded heights, set of restart heights) case: the chain is synced once continuously (reference) and once with clean stop/start at the restart heights; per-height and final dumps must coincide. "+
@@ -325,6 +434,7 @@ func checkC09(c *Ctx) *orch.Outcome {
 		"restart = context cancel at a block boundary + new NewPegnetd on the same database (in the same OS process: in-memory daemon state lives in the Pegnetd struct)",
 		"restart-time back-fill rows (pn_sync_version version=-1) excluded from comparison",
 		"plus chains with compressed eras restarted right before / at / right after every activation from 2.0 on (mint address substituted by one whose key the lab holds)",
+		"plus chains (an asset without an average, conversions of it waiting) replayed twice while read-only API requests are answered after every block: by one process, and by a new process before every block",
 	}
 	span := 2 * c09Window
 	rng := rand.New(rand.NewSource(c.Seed))
@@ -405,6 +515,15 @@ func checkC09(c *Ctx) *orch.Outcome {
 			jobs = append(jobs, orch.Job{Kind: "c09.boundary", Name: fmt.Sprintf("c09-boundary-%d-set%d", k, i), Seed: c.Seed*100 + 70 + int64(k), Params: pj, Timeout: 1800})
 		}
 	}
+	// API requests between blocks, continuous against restarted before every block
+	na := 2
+	if c.Thorough() {
+		na = 12
+	}
+	for k := 0; k < na; k++ {
+		pj, _ := json.Marshal(c09Params{Seed: c.Seed*100 + 90 + int64(k)})
+		jobs = append(jobs, orch.Job{Kind: "c09.api", Name: fmt.Sprintf("c09-api-%d", k), Seed: c.Seed*100 + 90 + int64(k), Params: pj, Timeout: 1800})
+	}
 	rs := c.R.Run(jobs)
 	o.Merge(rs)
 	for i, r := range rs {
@@ -417,6 +536,8 @@ func checkC09(c *Ctx) *orch.Outcome {
 	o.Extra["reference_conversions"] = orch.SumCounter(rs, "reference_conversions")
 	o.Extra["reference_conversions_priced_by_average"] = orch.SumCounter(rs, "reference_binding_conversions")
 	o.Extra["chains"] = len(jobs)
+	o.Extra["api_requests_between_blocks"] = orch.SumCounter(rs, "api_requests_between_blocks")
+	o.Extra["conversions_left_waiting_for_an_average_in_the_reference"] = orch.SumCounter(rs, "conversions_left_waiting_for_an_average_in_the_reference")
 	o.MinNontrivial = 10
 	return o
 }
